@@ -47,11 +47,20 @@ func NewIncreaseLevelCore(core Core, level LevelEnabler) (Core, error) {
 }
 
 func (c *levelFilterCore) Enabled(lvl Level) bool {
-	return c.level.Enabled(lvl)
+	// The wrapped core may be narrower than the filter: its level can be
+	// raised after construction (AtomicLevel), and the constructor only
+	// validates the supported levels. Never report a level as enabled that the
+	// wrapped core would refuse.
+	return c.level.Enabled(lvl) && c.core.Enabled(lvl)
 }
 
 func (c *levelFilterCore) Level() Level {
-	return LevelOf(c.level)
+	for lvl := _minLevel; lvl <= _maxLevel; lvl++ {
+		if c.Enabled(lvl) {
+			return lvl
+		}
+	}
+	return InvalidLevel
 }
 
 func (c *levelFilterCore) With(fields []Field) Core {
